@@ -259,6 +259,32 @@ def testOutcome (val : Node) (hasValue : Bool) (value : Json) : R Unit :=
       | some false => .err
       | none => .panic
 
+/-- one step of a walk, named canonically within the parent -/
+inductive Step where
+  | key (k : String)
+  | idx (i : Nat)
+deriving DecidableEq, Repr
+
+/-- the nodes visited when `tokens` are walked from `cur`; `none` when the walk leaves the tree -/
+def resolveSteps : Json → List String → Option (List Step)
+  | _, [] => some []
+  | .obj kvs, t :: ts => (Json.lookup t kvs).bind fun n => (resolveSteps n ts).map (Step.key t :: ·)
+  | .arr xs, t :: ts =>
+    match atoi? t with
+    | some i =>
+      if 0 ≤ i ∧ i < xs.length then (xs[i.toNat]?).bind fun n => (resolveSteps n ts).map (Step.idx i.toNat :: ·)
+      else none
+    | none => none
+  | _, _ :: _ => none
+
+/-- `copy` links the source node itself into the target container. When that container is the
+    source node or lies inside it, the document now contains itself and serializing it does not
+    end (the process dies of stack exhaustion). -/
+def copyMakesCycle (doc : Json) (fparts : List (List Char)) (fkey : String) (parts : List (List Char)) : Bool :=
+  match resolveSteps doc (fparts.map decodeKey ++ [fkey]), resolveSteps doc (parts.map decodeKey) with
+  | some src, some dst => src.isPrefixOf dst
+  | _, _ => false
+
 /-- one operation, `Patch{op}.Apply(doc)` for a document that is a JSON object -/
 def applyOp (doc : Json) (op : Json) : R Json :=
   let kind := opString op "op"
@@ -295,7 +321,8 @@ def applyOp (doc : Json) (op : Json) : R Json :=
     match splitPointer (opString op "from"), splitPointer (opString op "path") with
     | some (fparts, fkey), some (parts, key) => do
       let val ← readAt (fun con => conGet con fkey) fparts doc
-      updateAt (fun con => conSet con key (jsonOf val)) parts doc
+      let doc' ← updateAt (fun con => conSet con key (jsonOf val)) parts doc
+      if copyMakesCycle doc fparts fkey parts then .blowup else .ok doc'
     | none, _ => .err
     | some (fparts, fkey), none => do
       let _ ← readAt (fun con => conGet con fkey) fparts doc
@@ -318,12 +345,45 @@ def decodePatch (value : Json) : Option (List Json) :=
   | .arr ops => if ops.all Patch.isObjOrNullB then some ops else none
   | _ => none
 
-/-- `applyJSON` after the repairs: operations one at a time, a panic answered as an error -/
-def applyAll (doc : Json) (ops : List Json) : R Json :=
-  ops.foldlM (fun d op =>
-    match applyOp d op with
+/-- a string member as the composer's guard reads it (`stringMember`) -/
+def guardString (op : Json) (k : String) : Option String :=
+  match op.get? k with
+  | some (.str s) => some s
+  | _ => none
+
+/-- two unescaped tokens name the same child wherever they are resolved: equal strings, or
+    equal as array indices -/
+def sameDecoded (a b : String) : Bool :=
+  a == b || (match atoi? a, atoi? b with
+             | some x, some y => x == y
+             | _, _ => false)
+
+/-- the composer's token comparison -/
+def sameToken (a b : List Char) : Bool := sameDecoded (decodeKey a) (decodeKey b)
+
+/-- `isBelow(path, from)` of the composer: whatever precedes the first `/` is ignored -/
+def isBelow (path frm : String) : Bool :=
+  let f := splitSlash frm.toList
+  let p := splitSlash path.toList
+  if p.length ≤ f.length then false
+  else ((f.drop 1).zip (p.drop 1)).all fun ab => sameToken ab.1 ab.2
+
+/-- `targetsOwnSource` for one operation -/
+def targetsOwnSource (op : Json) : Bool :=
+  match guardString op "op", guardString op "from", guardString op "path" with
+  | some kind, some frm, some path => (kind = "copy" || kind = "move") && isBelow path frm
+  | _, _, _ => false
+
+/-- `applyJSONPatchOperation`: the guard, then the library; a panic is answered as an error -/
+def applyGuarded (doc : Json) (op : Json) : R Json :=
+  if targetsOwnSource op then .err
+  else match applyOp doc op with
     | .panic => .err
-    | r => r) doc
+    | r => r
+
+/-- `applyJSON` after the repairs: operations one at a time -/
+def applyAll (doc : Json) (ops : List Json) : R Json :=
+  ops.foldlM applyGuarded doc
 
 end Lib
 
